@@ -347,6 +347,15 @@ def assign_targets(X, ast, ev):
         if name == 'allfields':
             ty = resolve_type(w, args[0][1], ev.pkg)
             return [(('f', ty, f['name']), None) for f in w.struct_fields(ty)]
+        if name == 'content':
+            # content(b): the abstract content of the bytes.Buffer b (a *bytes.Buffer or a local bytes.Buffer variable)
+            from .externals import buf_key
+            a0 = args[0]
+            lvv = ev.env.get(a0[1]) if a0[0] == 'id' else None
+            if isinstance(lvv, LValue) and lvv.kind in ('cell', 'obj'):
+                return [(buf_key(w), lvv.data[1] if lvv.kind == 'cell' else lvv.data[-1])]
+            v = ev.ev(a0)
+            return [(buf_key(w), v.t)]
         if name == 'stream':
             # stream(r): the abstract rune stream behind the *bufio.Reader r
             from .externals import rd_keys
